@@ -154,7 +154,18 @@ class Chan:
     def close(self, rst=False):
         try:
             if rst:
-                import struct
+                import struct, fcntl, termios
+                # an abortive close throws away what is still in the send queue: wait until the other side's kernel has
+                # taken everything that was written (what a reset cuts off is then decided by the script, not by the load)
+                t0 = time.time()
+                while time.time() - t0 < 5.0:
+                    try:
+                        left = struct.unpack("i", fcntl.ioctl(self.sock.fileno(), termios.TIOCOUTQ, b"\0\0\0\0"))[0]
+                    except OSError:
+                        break
+                    if left == 0:
+                        break
+                    time.sleep(0.002)
                 self.sock.setsockopt(socket.SOL_SOCKET, socket.SO_LINGER, struct.pack("ii", 1, 0))
             self.sock.close()
         except OSError:
